@@ -40,6 +40,11 @@ def obligations(tier):
         o = dict(HEXLEN); o["name"] = "ntop6_hex_len_zero%d_%d" % (f, t); o["defines"] = HEXLEN["defines"] + ["VP_ZERO_FROM=%d" % f, "VP_ZERO_TO=%d" % t]
         o["timeout"] = 900; o["desc"] = "words %d..%d zero, the other three words symbolic, every len 0..41: success iff complete text + NUL fit" % (f, t)
         obs.append(o)
+    for fam in ("V4", "V6"):
+        for nd in (() if q else (1, 2, 3, 4, 5)):   # thorough only: > 500 s each even path-wise (quick tier therefore does not see a change of the port bounds)
+            obs.append(dict(name="parse_port_%s_%ddigits" % (fam.lower(), nd), harness="C40_inet.c", entry="harness_parse_port", defines=["VP_RT_" + fam, "VP_NDIG=%d" % nd], unwind=24, timeout=3000, mem_gb=6, no_trace=True,
+                            unwindset=["vp_memset_b.0:132", "vp_memcpy.0:132"], cbmc=["--paths", "lifo"],   # path-wise symex: infeasible IPv6/IPv4 mis-branches are pruned by the solver
+                            desc="evutil_parse_sockaddr_port on a fixed %s address followed by every %d-digit port in 1..65535: accepted with exactly that port" % (fam, nd)))
     if not q:
         obs.append(HEXLEN)
         obs.append(HEXFULL)
